@@ -384,8 +384,22 @@ Inductive case :=
      delegation expiries (tld., a.tld., b.tld.), the entries admitted for the outer and for the target question;
      then after tld. re-pointed / withdrew b.tld.: instant of the repeated question, whether the reply carried the
      old target servers' data, whether they were asked *)
-| CaseAlias (dname : bool) (ttl_tld ttl_a ttl_b : Z) (outer_ttl msg_ttl : Z) (warm : option (Z * Z)) (t0 t1 : Z)
+| CaseAlias (dname : bool) (leg_records leg_nx : bool) (ttl_tld ttl_a ttl_b : Z) (outer_ttl msg_ttl : Z) (warm : option (Z * Z)) (t0 t1 : Z)
             (delegs : list (option Z)) (outer target : option (Z * Z * option Z)) (t4 : Z) (from_old old_asked : bool)
+  (* ([leg_records], [leg_nx]: the shape of the target leg's reply - whether it has answer / authority records, whether
+     its rcode is NXDOMAIN: a denial may come with its SOA or as the bare rcode)
+
+     full pipeline, a CHAIN of CNAMEs: the question lies in zone 0, whose alias points into zone 1, ... whose alias
+     points at the final name in zone n; tld. delegates every zone with its own lease; the cache layer chases each
+     alias with a sub-query under a forked request tree, nested.  Per zone k: NS TTL (s), the TTL (ns) the entry for
+     leg k's question is admitted with, and the shape of leg k's reply as leg k-1's chase sees it (records, NXDOMAIN;
+     ignored for k = 0).  Bracket of the tree; observed: stored delegation expiries (tld., zone 0 .. n), the entry of
+     every leg's question; then tld. re-points / withdraws zone [victim]: instant of the repeated question, whether the
+     reply carried data of the old servers of that zone (or of zones only reachable through its old alias), whether
+     they were asked *)
+| CaseChain (ttl_tld : Z) (legs : list (Z * Z * bool * bool)) (t0 t1 : Z)
+            (delegs : list (option Z)) (entries : list (option (Z * Z * option Z)))
+            (victim : nat) (t4 : Z) (from_old old_asked : bool)
   (* full pipeline against the scripted world *)
 | CaseLab (zone_srv : list (zone * N)) (trees : list ltree).
 
@@ -461,18 +475,77 @@ Definition al_qw : zone := [1%N; 3%N; 6%N].
 Definition al_ref (i : N) (z : zone) (srv : N) (ttl t : Z) : act :=
   ARefer i (mk_ref z srv true ttl None true t false t [] false true true t).
 
-Definition alias_run (ttl_tld ttl_a ttl_b outer_ttl msg_ttl : Z) (warm : option Z) (t : Z) : state :=
+(* the reply of a leg that completed its part of the chain (no error, no DNSSEC proof marker: the drivers run with
+   validation off; nothing further to chase) *)
+Definition leg_hop (tree : N) (records nx : bool) : hop := mk_hop tree false records nx false false.
+
+Definition alias_run (dname : bool) (h : hop) (ttl_tld ttl_a ttl_b outer_ttl msg_ttl : Z) (warm : option Z) (t : Z) : state :=
   (* the target leg resolves and admits the target's answer under its own tree; its cut is folded into the outer
-     tree where its records / its denial become part of the composed answer, which is admitted after that *)
-  let leg_tail := [AStore 1 2 msg_ttl t; AFold 0 1; AStore 0 1 outer_ttl t] in
+     tree where the code inherits it - the DNAME leg of Resolver.answer always, the cache layer's chase where the leg's
+     records / its NXDOMAIN become part of the composed answer - which is admitted after that *)
+  let finish st :=
+    let st1 := step code_fx (AStore 1 2 msg_ttl t) st in
+    let st2 := if dname then (if leg_inherits true h then step code_fx (AFold 0 1) st1 else st1)
+               else chase code_fx chase_depth 0 [h] st1 in
+    step code_fx (AStore 0 1 outer_ttl t) st2 in
   match warm with
   | Some w =>
       let st := run code_fx [ASeed 0 0 al_qw false w; al_ref 0 al_ztld 1 ttl_tld w; al_ref 0 al_zb 3 ttl_b w;
                              AStore 0 3 msg_ttl w] st_init in
-      run code_fx (ASeed 0 0 al_qo false t :: al_ref 0 al_za 2 ttl_a t :: ASeed 1 1 al_qt false t :: leg_tail) (fresh_tree st)
+      finish (run code_fx [ASeed 0 0 al_qo false t; al_ref 0 al_za 2 ttl_a t; ASeed 1 1 al_qt false t] (fresh_tree st))
   | None =>
-      run code_fx (ASeed 0 0 al_qo false t :: al_ref 0 al_ztld 1 ttl_tld t :: al_ref 0 al_za 2 ttl_a t ::
-                   ASeed 1 1 al_qt false t :: al_ref 1 al_zb 3 ttl_b t :: leg_tail) st_init
+      finish (run code_fx [ASeed 0 0 al_qo false t; al_ref 0 al_ztld 1 ttl_tld t; al_ref 0 al_za 2 ttl_a t;
+                           ASeed 1 1 al_qt false t; al_ref 1 al_zb 3 ttl_b t] st_init)
+  end.
+
+(* ---- a chain of aliases through zones 0 .. n: leg k is its own resolution and request tree k *)
+Definition ch_zone (k : nat) : zone := [1%N; N.of_nat (10 + k)].
+Definition ch_q (k : nat) : zone := [1%N; N.of_nat (10 + k); 5%N].
+Definition ch_key (k : nat) : N := N.of_nat (S k).
+Definition ch_srv (k : nat) : N := N.of_nat (2 + k).
+Definition chain_leg := (Z * Z * bool * bool)%type.
+
+(* the descents, outermost first (tld. is learned by leg 0 and found in the delegation cache by the others) *)
+Fixpoint chain_down (k : nat) (legs : list chain_leg) (t : Z) : list act :=
+  match legs with
+  | [] => []
+  | (ns, _, _, _) :: r =>
+      ASeed (N.of_nat k) (N.of_nat k) (ch_q k) false t :: al_ref (N.of_nat k) (ch_zone k) (ch_srv k) ns t :: chain_down (S k) r t
+  end.
+(* the replies, innermost first: leg k's own chase has consumed leg k+1's reply, its entry is admitted under tree k,
+   then the chase of leg k-1 consumes leg k's reply *)
+Fixpoint chain_up (k : nat) (legs : list chain_leg) (t : Z) (st : state) : state :=
+  match legs with
+  | [] => st
+  | (_, ttl, records, nx) :: r =>
+      let st1 := chain_up (S k) r t st in
+      let st2 := step code_fx (AStore (N.of_nat k) (ch_key k) ttl t) st1 in
+      match k with
+      | O => st2
+      | S k' => chase code_fx chase_depth (N.of_nat k') [leg_hop (N.of_nat k) records nx] st2
+      end
+  end.
+Definition chain_run (ttl_tld : Z) (legs : list chain_leg) (t : Z) : state :=
+  let down := match chain_down 0 legs t with
+              | s :: r => s :: al_ref 0 al_ztld 1 ttl_tld t :: r
+              | [] => []
+              end in
+  chain_up 0 legs t (run code_fx down st_init).
+
+Definition leg_carries (l : chain_leg) : bool := let '(_, _, records, nx) := l in records || nx.
+(* every leg j with k < j <= v hands something (records or its NXDOMAIN) to the leg above it: what leg v learned
+   reaches leg k's reply *)
+Definition linked (legs : list chain_leg) (k v : nat) : bool := forallb leg_carries (firstn (v - k) (skipn (S k) legs)).
+
+Fixpoint chain_delegs_ok (lo hi : state) (k : nat) (ds : list (option Z)) : bool :=
+  match ds with
+  | [] => true
+  | d :: r => obetween (deleg_exp lo (ch_zone k)) d (deleg_exp hi (ch_zone k)) && chain_delegs_ok lo hi (S k) r
+  end.
+Fixpoint chain_entries_ok (lo hi : state) (k : nat) (es : list (option (Z * Z * option Z))) : bool :=
+  match es with
+  | [] => true
+  | e :: r => entry_between (entry_view lo (ch_key k)) e (entry_view hi (ch_key k)) && chain_entries_ok lo hi (S k) r
   end.
 
 Definition ole (a : option Z) (b : Z) : bool := match a with Some x => x <=? b | None => true end.
@@ -554,9 +627,26 @@ Definition check_case (c : case) : bool :=
       (if ole (deleg_exp hi nest_zs) t4
        then strict_above (m_zone (search_cache (st_dc hi) t4 nest_q false)) nest_zs && negb child_asked
        else true)
-  | CaseAlias dname ttl_tld ttl_a ttl_b outer_ttl msg_ttl warm t0 t1 delegs outer target t4 from_old old_asked =>
-      let lo := alias_run ttl_tld ttl_a ttl_b outer_ttl msg_ttl (option_map fst warm) t0 in
-      let hi := alias_run ttl_tld ttl_a ttl_b outer_ttl msg_ttl (option_map snd warm) t1 in
+  | CaseChain ttl_tld legs t0 t1 delegs entries victim t4 from_old old_asked =>
+      let lo := chain_run ttl_tld legs t0 in
+      let hi := chain_run ttl_tld legs t1 in
+      (length delegs =? S (length legs))%nat && (length entries =? length legs)%nat && (victim <? length legs)%nat &&
+      match delegs with
+      | dt :: ds => obetween (deleg_exp lo al_ztld) dt (deleg_exp hi al_ztld) && chain_delegs_ok lo hi 0 ds
+      | [] => false
+      end &&
+      chain_entries_ok lo hi 0 entries &&
+      (* once the model's delegation for the victim zone has lapsed and with it every entry that holds something learned
+         through it (the legs above it as far as each hop handed something up), the repeated question is resolved from
+         strictly above the victim zone: nothing of its old servers is served or asked *)
+      (if ole (deleg_exp hi (ch_zone victim)) t4 &&
+          forallb (fun k => negb (linked legs k victim) || entry_dead hi (ch_key k) t4) (seq 0 (S victim))
+       then strict_above (m_zone (search_cache (st_dc hi) t4 (ch_q victim) false)) (ch_zone victim) && negb from_old && negb old_asked
+       else true)
+  | CaseAlias dname leg_records leg_nx ttl_tld ttl_a ttl_b outer_ttl msg_ttl warm t0 t1 delegs outer target t4 from_old old_asked =>
+      let h := leg_hop 1 leg_records leg_nx in
+      let lo := alias_run dname h ttl_tld ttl_a ttl_b outer_ttl msg_ttl (option_map fst warm) t0 in
+      let hi := alias_run dname h ttl_tld ttl_a ttl_b outer_ttl msg_ttl (option_map snd warm) t1 in
       match delegs with
       | [dt; da; db] =>
           obetween (deleg_exp lo al_ztld) dt (deleg_exp hi al_ztld) &&
@@ -568,7 +658,7 @@ Definition check_case (c : case) : bool :=
       entry_between (entry_view lo 2%N) target (entry_view hi 2%N) &&
       (* once the model's delegation for b.tld. and both entries have lapsed, the repeated question is resolved
          from strictly above b.tld.: nothing of the old target servers is served or asked *)
-      (if ole (deleg_exp hi al_zb) t4 && entry_dead hi 1%N t4 && entry_dead hi 2%N t4
+      (if ole (deleg_exp hi al_zb) t4 && (negb (leg_inherits dname h) || entry_dead hi 1%N t4) && entry_dead hi 2%N t4
        then strict_above (m_zone (search_cache (st_dc hi) t4 al_qt false)) al_zb && negb from_old && negb old_asked
        else true)
   | CaseLab _ trees => lab_check st_init st_init trees
@@ -712,10 +802,31 @@ Definition spec_case (c : case) : bool :=
       match ans with Some x => entry_end x <=? l_s | None => true end &&
       match nsaddr with Some x => entry_end x <=? l_s | None => true end &&
       (if l_s <=? t4 then nx && negb child_asked else true)
-  | CaseAlias dname ttl_tld ttl_a ttl_b outer_ttl msg_ttl warm t0 t1 delegs outer target t4 from_old old_asked =>
+  | CaseChain ttl_tld legs t0 t1 delegs entries victim t4 from_old old_asked =>
+      (* leases from the published TTLs only; the entry of leg k's question holds what leg k learned through zone k
+         and whatever the legs below handed up: it ends within the lease of every zone j >= k whose leg is linked to
+         it, whatever any record's own TTL; after the victim zone's lease its old servers are history *)
+      let capd ttl := Z.min (ttl * 1000000000) twelve_hours in
+      let l_tld := t1 + capd ttl_tld in
+      let lease k := match nth_error legs k with Some (ns, _, _, _) => Z.min l_tld (t1 + capd ns) | None => l_tld end in
+      let n := length legs in
+      (length delegs =? S n)%nat && (length entries =? n)%nat && (victim <? n)%nat &&
+      match delegs with
+      | dt :: ds => ole dt l_tld && forallb (fun k => ole (nth k ds None) (lease k)) (seq 0 n)
+      | [] => false
+      end &&
+      forallb (fun k => match nth k entries None with
+                        | Some x => forallb (fun j => negb (linked legs k j) || (entry_end x <=? lease j)) (seq k (n - k))
+                        | None => true
+                        end) (seq 0 n) &&
+      (if lease victim <=? t4 then negb from_old && negb old_asked else true)
+  | CaseAlias dname leg_records leg_nx ttl_tld ttl_a ttl_b outer_ttl msg_ttl warm t0 t1 delegs outer target t4 from_old old_asked =>
       (* leases from the published TTLs only; the composed answer was learned through BOTH zones' delegations
          (the alias through a.tld., the target's records or denial through b.tld.): it ends within both leases,
-         whatever the alias's or the denial's own TTL; after b.tld.'s lease the old target servers are history *)
+         whatever the alias's or the denial's own TTL; after b.tld.'s lease the old target servers are history.
+         (A target leg that hands nothing up - NOERROR without any record - leaves the outer entry the alias
+         records alone: nothing in it was learned through b.tld., and the ghost clause below still judges what a
+         client is served.) *)
       let capd ttl := Z.min (ttl * 1000000000) twelve_hours in
       let obs_first := match warm with Some (_, w1) => w1 | None => t1 end in
       let l_tld := obs_first + capd ttl_tld in
@@ -725,7 +836,7 @@ Definition spec_case (c : case) : bool :=
       | [dt; da; db] => ole dt l_tld && ole da l_a && ole db l_b
       | _ => false
       end &&
-      match outer with Some x => entry_end x <=? Z.min l_a l_b | None => true end &&
+      match outer with Some x => entry_end x <=? (if leg_records || leg_nx then Z.min l_a l_b else l_a) | None => true end &&
       match target with Some x => entry_end x <=? l_b | None => true end &&
       (if l_b <=? t4 then negb from_old && negb old_asked else true)
   | CaseLab zone_srv trees => lab_spec [] zone_srv trees
